@@ -43,6 +43,10 @@ def handle (kind : String) (args : List String) (impl : String) : String :=
         let want := " | ".intercalate outs
         if impl == want then "ok"
         else s!"DIFF model={want} impl={impl} ; SPEC replies-differ-from-results-in-request-order impl={impl}"
+  | "c01.prefix", [_] =>
+    -- `Props.C01f.blocked_writer_has_flushed`: the second request is not decoded yet, the queue is empty, the writer waits: the first
+    -- reply has been flushed
+    if impl == "early=1 all=2" then "ok" else s!"SPEC finished-replies-held-back-behind-an-unanswered-request impl={impl}"
   | "c01.half", [nS] =>
     -- every request read gets its reply, also when the client has finished its own direction after the last request
     match nS.toNat? with
